@@ -1,6 +1,7 @@
 package secp256k1
 
 import (
+	"time"
 	"bytes"
 	"crypto/rand"
 	"errors"
@@ -53,7 +54,9 @@ func vRunCase2(t *testing.T, c vCase) (msg string) {
 			rand.Reader = rd
 			p2 := false
 			var g2 *Scalar
-			func() {
+			done := make(chan struct{})
+			go func() {
+				defer close(done)
 				defer func() {
 					if r := recover(); r != nil {
 						p2 = true
@@ -61,6 +64,11 @@ func vRunCase2(t *testing.T, c vCase) (msg string) {
 				}()
 				g2 = recv().Random()
 			}()
+			select {
+			case <-done:
+			case <-time.After(4 * time.Second):
+				return "Random does not return on this stream (it keeps drawing from a source that has failed)"
+			}
 			if ri == 0 {
 				got, panicked = g2, p2
 				continue
